@@ -131,6 +131,9 @@ type View struct {
 
 func moduleAddr(name string) string { return string(authTypes.NewModuleAddress(name)) }
 
+// ModuleAddr is the address of the module account with that name.
+func ModuleAddr(name string) string { return moduleAddr(name) }
+
 var (
 	PoolAddr = moduleAddr(posTypes.StakedPoolName)
 	FeeAddr  = moduleAddr(authTypes.FeeCollectorName)
